@@ -177,17 +177,21 @@ static inline size_t
 tpt_msg_active_thr_count_dec(tpt_msg_data_p msg_data, tpt_p src,
     size_t dec) {
 	size_t tm;
+	tpt_msg_done_cb done_cb;
 
 	/* Additional data handling. */
 	MTX_LOCK(&msg_data->lock);
 	msg_data->active_thr_count -= dec;
 	tm = msg_data->active_thr_count;
+	/* Read before unlock: after count reach 0 the sync caller
+	 * may return and msg_data on its stack is gone. */
+	done_cb = msg_data->done_cb;
 	LIBLCB_VERIF_POINT("dec.locked", msg_data, src, tm);
 	MTX_UNLOCK(&msg_data->lock);
 	LIBLCB_VERIF_POINT("dec.unlocked", msg_data, src, tm);
 
 	if (0 != tm ||
-	    NULL == msg_data->done_cb)
+	    NULL == done_cb)
 		return (tm); /* There is other alive threads. */
 	/* This was last thread, so we need do call back done handler. */
 	LIBLCB_VERIF_POINT("dec.postdone", msg_data, src, 0);
